@@ -260,7 +260,7 @@ func (s *Solver) Check(extra *Term, wantModel bool) (SatResult, Model) {
 	s.send("(pop 1)")
 	s.Queries++
 	s.SolveTime += time.Since(start)
-	if res == Unknown && s.nonlin && s.kind == "z3" {
+	if res == Unknown && s.nonlin && strings.HasPrefix(s.kind, "z3") {
 		// multiplication / division kernels: retry on the integer encoding back end
 		return s.checkExternal("cvc5-int", extra, wantModel)
 	}
